@@ -1,11 +1,15 @@
 import Rtcm.Lemmas.Socket
+import Rtcm.Lemmas.SockFile
 /-
   C11 — socket reads are independent of how the network segments the data.
   Model: the peer is a schedule of receive events (data segments, timeouts, OS errors, close);
   `bufsize` caps every `recv`.  No transfer encoding here (that is C12).
-  PARTIAL: "the reader over a socket returns the same messages as over a file" is checked by the
-  correspondence run (`rsock` vs `reader` ops over the same bytes) and by the oracle on the real
-  code; the relational proof between the two stream instances of the reader is not done.
+  The "consequently" clause — the reader over a socket returns the same messages as over a file
+  holding the same bytes — is `C11_reader_socket_eq_file` (a simulation between the two stream
+  instances of the reader model, Lemmas/ReaderSim.lean).  The event sequences are *not* equal in
+  general: where the stream ends inside a frame the file returns a short read (a stream error is
+  logged or raised) while the socket wrapper returns nothing (end of stream); the theorem is about
+  the returned (raw, parsed) pairs.
 -/
 namespace Rtcm
 
@@ -74,5 +78,37 @@ example : SockOK ⟨[], [], [.data [1, 2], .data [3, 4, 5]], false, 4096⟩ ∧ 
   refine ⟨⟨rfl, by decide, ?_⟩, ⟨rfl, by decide, ?_⟩, by decide⟩
   · intro r hr; simp at hr; rcases hr with rfl | rfl <;> exact ⟨_, rfl, by simp⟩
   · intro r hr; simp at hr; rcases hr with rfl | rfl <;> exact ⟨_, rfl, by simp⟩
+
+/-- the wrapper constructed over a fault-free peer is a fault-free connection -/
+theorem init_ok (dec : Bytes → Bytes) (sched : List Recv) (bufsize : Nat) (hff : FaultFree sched) (hb : 0 < bufsize) :
+    SockOK (Sock.init dec sched false bufsize) :=
+  (recv_faultfree dec ⟨[], [], sched, false, bufsize⟩ ⟨rfl, hb, hff⟩).1
+
+/-- **Reader over a socket = reader over a file.**  For every partition of a byte stream into
+    non-empty receive results, every buffer size, every option setting (validate, quitonerror,
+    labelmsm, parsed) and with or without resuming after a raised error: iterating the reader over
+    the socket wrapper returns exactly the sequence of (raw, parsed) messages that iterating over a
+    file holding the same bytes returns. -/
+theorem C11_reader_socket_eq_file (dec : Bytes → Bytes) (T : Tables) (o : Opts) (resume : Bool)
+    (sched : List Recv) (bufsize : Nat) (hff : FaultFree sched) (hb : 0 < bufsize) :
+    frames (run (sockOps dec) T o resume (Sock.init dec sched false bufsize))
+      = frames (run fileOps T o resume ⟨pendingData sched, []⟩) := by
+  rw [reader_sock_eq_file dec T o resume _ (init_ok dec sched bufsize hff hb), C11_init]
+
+/-- hence two segmentations of the same bytes give the same messages -/
+theorem C11_reader_segmentation_independent (dec : Bytes → Bytes) (T : Tables) (o : Opts) (resume : Bool)
+    (sched₁ sched₂ : List Recv) (b₁ b₂ : Nat) (h₁ : FaultFree sched₁) (h₂ : FaultFree sched₂)
+    (hb₁ : 0 < b₁) (hb₂ : 0 < b₂) (hsame : pendingData sched₁ = pendingData sched₂) :
+    frames (run (sockOps dec) T o resume (Sock.init dec sched₁ false b₁))
+      = frames (run (sockOps dec) T o resume (Sock.init dec sched₂ false b₂)) := by
+  rw [C11_reader_socket_eq_file dec T o resume sched₁ b₁ h₁ hb₁,
+    C11_reader_socket_eq_file dec T o resume sched₂ b₂ h₂ hb₂, hsame]
+
+/-- the reader over the socket wrapper — any schedule including timeouts, OS errors and close, any
+    buffer size, chunked or not — always terminates by the stream's own measure: the model-only
+    `stuck` event never occurs -/
+theorem C11_reader_over_socket_terminates (dec : Bytes → Bytes) (T : Tables) (o : Opts) (resume : Bool) (s : Sock) :
+    ∀ ev ∈ run (sockOps dec) T o resume s, ev.isStuck = false :=
+  run_not_stuck (sockOps_lawful dec) T o resume s
 
 end Rtcm
